@@ -147,6 +147,10 @@ func Build(g *gram.Grammar, opt Options) *Built {
 			p = bind(combinator.SepBy1(build(e.Kids[0]), build(e.Kids[1])))
 		case gram.Memo:
 			p = memoize(e, build(e.Kids[0]))
+		case gram.SupErr:
+			p = combinator.SuppressError(build(e.Kids[0]))
+		case gram.Single:
+			p = combinator.Single(build(e.Kids[0]))
 		case gram.LTrim:
 			p = text.LeftTrim(build(e.Kids[0]), text.WsMode(e.Mode))
 		case gram.RTrim:
